@@ -296,6 +296,7 @@ func init() {
 		x.hashCollisions(fns)
 		x.nearMissBlocks(fns)
 		x.siblingDecoys(fns)
+		x.straddleSS(fns)
 		x.pairsFor(fns, valid, 120000*x.scale)
 		relC01(x, 20000*x.scale)
 	}
@@ -361,6 +362,7 @@ func init() {
 		x.hashCollisions(fns)
 		x.nearMissBlocks(fns)
 		x.siblingDecoys(fns)
+		x.straddleSS(fns)
 		x.pairsFor(fns, valid, 150000*x.scale)
 		relC08(x, 30000*x.scale)
 	}
@@ -382,6 +384,14 @@ func init() {
 		}
 		x.everyCodePoint()
 		x.orbitPairs()
+		x.straddle(func(s []byte, have, want rune) {
+			x.eval(&Case{Fn: "IndexRune", S: s, R: int64(want)}, false)
+			x.eval(&Case{Fn: "ContainsRune", S: s, R: int64(want)}, false)
+			if have < 0x80 {
+				x.eval(&Case{Fn: "IndexByte", S: s, R: int64(have)}, false)
+				x.eval(&Case{Fn: "LastIndexByte", S: s, R: int64(have)}, false)
+			}
+		})
 		for _, r := range []rune{'é', 'я', 'ß', '世', '乖', 'K', 0x0800, 0xFFFD, '😀', 0x10000, 0xE0041, 0x10FFFF, 0x1F640, 'σ'} {
 			for _, q := range siblings(r) {
 				for _, pad := range []string{"", "x", "0123456789abcdef0123"} {
@@ -398,6 +408,7 @@ func init() {
 		x.anyGrid()
 		x.anyCaseBit()
 		x.siblingDecoys([]string{"IndexAny", "LastIndexAny"})
+		x.straddleSS([]string{"IndexAny", "LastIndexAny"})
 		x.orbitPairsSS([]string{"IndexAny", "LastIndexAny"})
 	}
 	props["C12"] = func(x *Ctx) {
@@ -408,6 +419,7 @@ func init() {
 		x.orbitPairsSS(fns)
 		x.hashCollisions(fns)
 		x.siblingDecoys(fns)
+		x.straddleSS(fns)
 		for _, c := range "KkSsaZ1" { // single byte needles
 			for i := 0; i < 300*x.scale; i++ {
 				s, _ := x.g.byteCase(streamValid)
@@ -781,6 +793,18 @@ func siblings(r rune) []rune {
 	return out
 }
 
+// straddleSS: the same haystacks for the two-string functions, the needle being the wanted code point alone or
+// followed by the first byte of the tail
+func (x *Ctx) straddleSS(fns []string) {
+	x.straddle(func(s []byte, have, want rune) {
+		for _, fn := range fns {
+			x.eval(&Case{Fn: fn, S: s, T: []byte(string(want))}, false)
+			x.eval(&Case{Fn: fn, S: s, T: []byte(string(want) + "t")}, false)
+			x.eval(&Case{Fn: fn, S: s, T: []byte(string(want) + "TAIL")}, false)
+		}
+	})
+}
+
 // siblingDecoys: a sibling of the needle's code point in the haystack, alone, and to the left / right of a real occurrence
 func (x *Ctx) siblingDecoys(fns []string) {
 	n := 0
@@ -802,6 +826,37 @@ func (x *Ctx) siblingDecoys(fns []string) {
 		}
 	}
 	x.note("UTF-8 sibling decoys: %d cases", n)
+}
+
+// straddle: long haystacks in which the only occurrence (or the first / last one) of a code point lies ACROSS
+// a power-of-two offset (the block sizes a chunked or page-wise search would use), for every encoded width and
+// for orbit members of different widths; cb gets (haystack, code point in the haystack, code point to search for)
+func (x *Ctx) straddle(cb func(s []byte, have, want rune)) {
+	type pr struct{ have, want rune }
+	prs := []pr{{'σ', 'ς'}, {'ς', 'Σ'}, {'K', 'k'}, {'k', 'K'}, {'ſ', 'S'}, {'é', 'É'}, {'世', '世'}, {'😀', '😀'}, {'ß', 'ẞ'}, {'ⱥ', 'Ⱥ'}, {0xFFFD, 0xFFFD}}
+	blocks := []int{64, 256, 1024, 4096, 8192}
+	if x.tier == "thorough" {
+		blocks = append(blocks, 32768, 65536)
+	}
+	for _, B := range blocks {
+		for _, p := range prs {
+			w := utf8.RuneLen(p.have)
+			for back := 0; back <= w; back++ { // starts at B-back: straddles for 0 < back < w
+				for _, fill := range []string{"x", "é"} {
+					var s []byte
+					for len(s) < B-back {
+						s = append(s, fill...)
+					}
+					if len(s) != B-back { // a 2-byte filler overshot by one: pad with one ASCII byte in front
+						s = append([]byte("y"), s[:B-back-1]...)
+					}
+					s = utf8.AppendRune(s, p.have)
+					s = append(s, "tail of the haystack 0123456789"...)
+					cb(s, p.have, p.want)
+				}
+			}
+		}
+	}
 }
 
 // fffdBait: a literal U+FFFD in one argument opposite a multi-byte code point in the other, behind (or in
